@@ -28,6 +28,17 @@ type c20env struct {
 
 // freshPSKExt runs two connections (full, resumed) and returns the initialised PSK
 // extension object of the resumed one together with its identity label.
+// freshForgedPSKExt: a TLS 1.3 session is established once; its ticket, suite and PSK are read
+// from the cache entry and a pre_shared_key extension is forged from them alone.
+func freshForgedPSKExt(tg Target, scfg *tls.Config) (tls.PreSharedKeyExtension, []byte) {
+	cache := newMapCache()
+	h := RunCase(tg, GridCase{Server: scfg}, "example.test", func(c *tls.Config) { c.ClientSessionCache = cache }, peer.Opts{})
+	if !h.OK() || cache.Any() == nil || cache.Any().Vers() != tls.VersionTLS13 {
+		return nil, nil
+	}
+	return forgedPSKExt(cache.Any())
+}
+
 func freshPSKExt(tg Target, scfg *tls.Config) (tls.PreSharedKeyExtension, []byte) {
 	cache := tls.NewLRUClientSessionCache(2)
 	var ext tls.PreSharedKeyExtension
@@ -186,7 +197,12 @@ func TestC20(t *testing.T) {
 			if sc.MaxVersion != tls.VersionTLS13 {
 				sc = mkServer(tls.VersionTLS13)
 			}
-			pskExt, injectedLabel = freshPSKExt(src, sc)
+			if i%2 == 1 {
+				pskExt, injectedLabel = freshForgedPSKExt(src, sc)
+				r.Count("forged_psk_sessions", 1)
+			} else {
+				pskExt, injectedLabel = freshPSKExt(src, sc)
+			}
 			if pskExt == nil {
 				r.Count("psk_material_unavailable", 1)
 				return
